@@ -75,6 +75,9 @@ CHECKS = {
                  {"name": "VerifC03HWWriters", "quick": {"msgs": 3, "preemptions": 1}, "thorough": {"msgs": 4, "preemptions": 1},
                   "replay": "interpreted", "max-paths": 1000000,
                   "covers": ["done"], "targets": ["commitLog).SetHighWatermark", "commitLog).notifyHWChange", "committedReader).Read"]},
+                 {"name": "VerifC03ReaderStartsDuringAdvance", "quick": {"msgs": 3, "preemptions": 1}, "thorough": {"msgs": 4, "preemptions": 2},
+                  "replay": "interpreted", "max-paths": 1000000,
+                  "covers": ["done", "several-segments"], "targets": ["commitLog).NewReader", "commitLog).SetHighWatermark", "committedReader).Read"]},
                  {"name": "VerifC03Readonly", "quick": {"msgs": 3, "preemptions": 1, "merged": 1}, "thorough": {"msgs": 3, "preemptions": 2, "merged": 0},
                   "replay": "interpreted", "max-paths": 1000000,
                   "covers": ["done"], "targets": ["commitLog).SetReadonly", "commitLog).notifyReadonly", "commitLog).waitForHW", "committedReader).Read"]},
